@@ -1367,11 +1367,14 @@ def install(P, max_split=4):
     @P.summary("Box::new_uninit")
     def _box_uninit(ctx, c):
         # vec![..] lowering: Box<MaybeUninit<[T;N]>> written through nested fields, then box_assume_init_into_vec_unsafe
-        return Ref(Box(Adt("MaybeUninit", None, [None, Adt("ManuallyDrop", None, [Adt("MaybeDangling", None, [None])])])))
+        cell = Ref(Box(Adt("MaybeUninit", None, [None, Adt("ManuallyDrop", None, [Adt("MaybeDangling", None, [None])])])))
+        return Adt("Box", None, [Adt("Unique", None, [cell])])       # Box.0: Unique<T>, Unique.0: NonNull<T>
 
     @P.summary("box_assume_init_into_vec_unsafe")
     def _box_into_vec(ctx, c):
         b = deref(c.args[0])
+        if b.ty == "Box":
+            b = deref(b.fields[0].fields[0])
         arr = b.fields[1].fields[0].fields[0]
         return VecV(list(arr.fields))
 
